@@ -2,10 +2,10 @@
    Proved: the spatial mean is the zero mode of the transform; the conservation-form symbols vanish there (any D); the mean-mode
    coefficient of the conservation-form nonlinear terms vanishes for every input; hence every ETDRK order (stage programs translated
    from the source) leaves the mean unchanged; every constant equilibrium (lambda u + N(u) = 0 mode by mode) is a fixed point of
-   every ETD tableau.  NOT proved here (checked on the real code by the witness oracle, see DESIGN.md): energy / enstrophy neutrality
-   of the convective terms, the mean of the vorticity form, and the 3D rotational form on divergence-free states.
-   The mean of the single-channel NON-conservative convection (Burgers/KdV with single_channel=True, conservative=False) IS proved:
-   with the dealiased pseudo-spectral product it is an antisymmetric sum under m -> -m (Nonlin/MeanFree.v). *)
+   every ETD tableau.  Also proved (Nonlin/MeanFree.v, band symmetry m -> -m of the dealiased convolution sums, 2K < N): the mean-mode coefficient of the
+   NON-conservative single-channel convection and of the 1D default convection vanishes for every state; the 2D vorticity convection has zero
+   mean for every state; the Leray-projected 3D rotational form has zero mean on divergence-free states (the premise is necessary).
+   NOT proved here (checked on the real code by the witness oracle, see DESIGN.md): energy / enstrophy neutrality of the convective terms. *)
 From Coq Require Import ZArith QArith List Bool Lia.
 From EXV Require Import Base.Scalar Base.FieldLemmas Spectral.Symbols Layout.Freq DFT.DFT1 Nonlin.Conv Nonlin.Terms ETDRK.Phi Gen.ETDRK
   Steppers.Conservation Nonlin.MeanFree.
@@ -52,6 +52,28 @@ Theorem C09_nonconservative_single_channel_zero_mean : forall (F : FieldT) (D : 
   conv_sc_noncons F (prod2 F D N Kc) ii s D b u (zeros D) = 0.
 Proof. intros. apply conv_sc_noncons_dc; assumption. Qed.
 Print Assumptions C09_nonconservative_single_channel_zero_mean.
+
+(* the 1D default Burgers / KdV convection (multi-channel form with one channel, non-conservative) *)
+Theorem C09_default_1d_convection_zero_mean : forall (F : FieldT) (N Kc : Z) (ii s b : F) (u : field F),
+  (0 < N)%Z -> (0 <= Kc)%Z -> (2 * Kc < N)%Z ->
+  nth 0 (conv_mc_noncons F (prod2 F 1 N Kc) ii s 1 b [u]) (fzero F) (zeros 1) = 0.
+Proof. intros. apply conv_mc_noncons_1d_dc; assumption. Qed.
+Print Assumptions C09_default_1d_convection_zero_mean.
+
+(* 2D vorticity convection -b (u . grad w), u = curl^-1 w through ANY mode-wise stream-function multiplier: zero mean for every state *)
+Theorem C09_vorticity_convection_zero_mean : forall (F : FieldT) (D : nat) (N Kc : Z) (ii s b : F) (w : field F),
+  (0 < N)%Z -> (0 <= Kc)%Z -> (2 * Kc < N)%Z ->
+  vorticity_conv F (prod2 F D N Kc) ii s D b w (zeros D) = 0.
+Proof. intros. apply vorticity_conv_dc; assumption. Qed.
+Print Assumptions C09_vorticity_convection_zero_mean.
+
+(* 3D rotational form u x curl u, Leray-projected: zero mean of every component on divergence-free band-limited states *)
+Theorem C09_rotational_convection_zero_mean : forall (F : FieldT) (N Kc : Z) (ii s : F) (u0 u1 u2 : field F),
+  (0 < N)%Z -> (0 <= Kc)%Z -> (2 * Kc < N)%Z ->
+  (forall m, in_band Kc m = true -> dc F ii s 0 m * u0 m + dc F ii s 1 m * u1 m + dc F ii s 2 m * u2 m = 0) ->
+  forall i, (i < 3)%nat -> nth i (projected_conv F (prod2 F 3 N Kc) ii s 3 [u0; u1; u2]) (fzero F) (zeros 3) = 0.
+Proof. intros. apply projected_conv_dc; assumption. Qed.
+Print Assumptions C09_rotational_convection_zero_mean.
 
 (* every order leaves a mode unchanged where the propagator is 1 and the nonlinear term vanishes for every input *)
 Theorem C09_mean_preserved : forall (F : FieldT) (I : Type) (k0 : I) (E Eh c1 c2 c3 c4 c5 c6 : I -> F) (N : (I -> F) -> (I -> F)),
